@@ -75,9 +75,9 @@ PROPS = {
         bounded_parts=[dict(what="FullLinkControl GPS Info longitude/latitude float scaling", bound="4000 random + boundary raw 25/24-bit words per run, seeded by VERIF_SEED", contract="FullLinkControl.gps_bounded")],
     ),
     "C04": dict(
-        level_text="Proof: (1) every PDU with a check field built from symbolic fields parses back with its indicator true; (2) slot type and EMB indicators equal Golay / QR codeword membership on ALL 2^20 / 2^16 received words (except the recorded findings); (3) for data headers (5 formats), PI header, short LC and confirmed data blocks (3 rates), every single inverted bit and every non-zero SYMBOLIC burst no longer than the check field at a literal position (codeword order) leads to a decode error, a false indicator, or unchanged field values - symbolic fields, exhaustive paths, XOR-aware solver.",
-        level_note="Quick tier: every single-bit position and burst windows every 8 positions plus the check-field boundary; thorough: every window start. Seven witness classes are recorded as known findings (in-band zero sentinels pinned by the repository's tests; indicators computed over re-serialised instead of received bits) as separate obligations, so the main obligations stay sharp. HRNP checksum: see C12 contracts (shared). CSBK has no indicator (not in the property's list).",
-        explanation="contracts SlotType/EmbeddedSignalling.from_bits.all_words, *.detects_corruption, parsed_back_*_ok clauses of the build_parse contracts",
+        level_text="Proof: (1) every PDU with a check field built from symbolic fields parses back with its indicator true (slot type, EMB, data header, PI header, short LC, confirmed blocks, HRNP); (2) slot type and EMB indicators equal Golay / QR codeword membership on ALL 2^20 / 2^16 received words, and the Golay / QR codes themselves have the advertised parameters (the C06 code contracts are part of this check); (3) for data headers (5 formats), PI header, short LC and confirmed data blocks (3 rates): every single inverted bit and every non-zero SYMBOLIC burst confined to a window of check-field width at a literal position (in transmitted codeword order), applied to a PDU built from symbolic fields, makes the parse raise, or the indicator false, or leaves every field value as sent; for the CRC-CCITT and CRC-8 protected PDUs also literal weight-2 and weight-3 patterns (both polynomials have the factor x+1 and a period above the word length); the HRNP checksum is proved equal to the ones-complement definition (C12 contract HRNP.verify_checksum).",
+        level_note="Quick tier: every single-bit position, burst windows at every eighth position, two unaligned ones and the check-field boundary, 40 pairs + 40 triples per PDU kind (short LC: all pairs, 200 triples); thorough: every window start, all pairs, 2000 triples (short LC: all triples). Weight-2/3 detection is not claimed for the CRC-9 (its polynomial has no factor x+1). Four witness classes are recorded as known findings (in-band zero sentinels on received words that the repository's tests pin, CRC-32 = 0 treated as absent), each under its own obligation name, so the main obligations stay sharp.",
+        explanation="contracts SlotType/EmbeddedSignalling.from_bits.all_words, *.detects_corruption, parsed_back_*_ok clauses of the build_parse contracts, BlockCode.generate / check, HRNP.as_bytes / verify_checksum",
     ),
     "C01": dict(
         level_text="Proof per (payload kind, data sync pattern) with symbolic colour code and symbolic payload fields: the library's own assembly idiom -> 33 octets -> Burst.from_bytes gives the same data type, colour code, sync pattern, payload bits and every payload attribute (typed view for rate blocks), identical re-serialisation, slot parity ok; all 2^216 vocoder payloads around each voice sync pattern, and around valid EMB (any cc / PI / LCSS) with any 32 embedded bits, survive parse-then-serialise bit for bit.",
